@@ -247,5 +247,5 @@ def strategy(focus="membership"):
 
 def campaigns(tier):
     th = tier == "thorough"
-    return [Campaign("group_sim", "hyp", execute=execute, strategy=strategy, examples=12000 if th else 640,
+    return [Campaign("group_sim", "hyp", execute=execute, strategy=strategy, examples=12000 if th else 1280,
                      setup=GS.setup, max_wall=1000 if th else 110, shrink_wall=40)]
